@@ -91,11 +91,17 @@ func vhThresholdsOf(total uint64) *vhThresholds {
 
 // vhTopChoices: number of targets that carry votes: nil, "A" (quick); nil, "A", "B" (thorough).
 func vhTopChoices() int {
-	if verifrt.Thorough() {
+	if vhExact() {
 		return 3
 	}
 	return 2
 }
+
+// vhExactTargets: votes for all three targets nil/A/B with the exact most-voted rule (always
+// in the thorough tier; a quick harness may switch it on for a short scripted history).
+var vhExactTargets bool
+
+func vhExact() bool { return vhExactTargets || verifrt.Thorough() }
 
 const (
 	vhGrowAll  = iota // every number may grow
@@ -131,7 +137,7 @@ func vhGenNums(prev *vhNums, mode int) *vhNums {
 			verifrt.Assume(n.pvTot >= prev.pvTot)
 		}
 		verifrt.Assume(vhSumGE(n.pv, n.pvTot))
-		if verifrt.Thorough() {
+		if vhExact() {
 			n.pvTop = verifrt.Choose("pvTop", 2)
 			verifrt.Assume(vhTopOK(n.pv, n.pvTop))
 		} else {
